@@ -37,6 +37,8 @@ def _battery(args):
             obs = Q.obs_c16(c, styles=opts.get("styles"), rotate=base + k)
         elif prop == "C17":
             obs = Q.obs_c17(c)
+        elif prop == "C07":
+            obs = Q.obs_c07(c)
         elif prop == "C08":
             obs = Q.obs_c08(c, lambda st=st: core.build(st, fl), assignments=_assignments(st, opts, base + k),
                             form_rotate=base + k)
@@ -141,6 +143,17 @@ def labelled(rep, *, max_nodes, d, label, typed=False, kinds=(0,), xids=(0,)):
     sts = [r["state"] for r in res.json_lines() if "state" in r]
     res.cleanup()
     return sts
+
+
+def copies_stage(rep, quick):
+    """C07: copies into NEW trees (Tree.copy, Node.copy, copy_to a fresh tree) on every labelled forest in the bound"""
+    sts = labelled(rep, max_nodes=4 if quick else 5, d=2, label="copies:labelled")
+    run_states(rep, "C07", sts, "str", {}, "copies")
+    sts2 = labelled(rep, max_nodes=3, d=2, xids=(0, 11), label="copies:ids")
+    run_states(rep, "C07", sts2, "str", {}, "copies-ids")
+    if not quick:
+        sts3 = labelled(rep, max_nodes=3, d=2, typed=True, kinds=(0, 2), label="copies:typed")
+        run_states(rep, "C07", sts3, "str+typed", {}, "copies-typed")
 
 
 def run(prop: str, tier: str) -> int:
